@@ -258,6 +258,9 @@ namespace
 		if (pos < inputData.size())
 		{
 			const auto& byteCodeInfo = ByteCodeTable[static_cast<uint_fast8_t>(inputData[pos++])];
+			if (byteCodeInfo.Type == ValueType::Unknown) {
+				throw ParsingException("Invalid byte code (0xC1 is never used)", 0, pos - 1);
+			}
 
 			size_t size = byteCodeInfo.DataSize;
 			uint32_t extSize = 0;
@@ -869,6 +872,9 @@ namespace
 		if (const auto byteCode = binaryStreamReader.ReadByte())
 		{
 			const auto& byteCodeInfo = ByteCodeTable[static_cast<uint_fast8_t>(*byteCode)];
+			if (byteCodeInfo.Type == ValueType::Unknown) {
+				throw ParsingException("Invalid byte code (0xC1 is never used)", 0, binaryStreamReader.GetPosition() - 1);
+			}
 
 			size_t size = byteCodeInfo.DataSize;
 			uint32_t extSize = 0;
